@@ -241,8 +241,8 @@ def build_multi_unit_calibration_layers(calibration_input_layer,
               output_min=output_min,
               output_max=output_max,
               kernel_initializer=kernel_initializer,
-              monotonicities=feature_config.monotonicity if isinstance(
-                  feature_config.monotonicity, list) else None,
+              monotonicities=list(feature_config.monotonicity) if isinstance(
+                  feature_config.monotonicity, (list, tuple)) else None,
               default_input_value=feature_config.default_value,
               split_outputs=(units > 1 and not output_single_tensor),
               dtype=dtype,
@@ -913,7 +913,7 @@ def set_categorical_monotonicities(feature_configs):
         '{}'.format(feature_configs))
   for feature_config in feature_configs:
     if feature_config.num_buckets and isinstance(feature_config.monotonicity,
-                                                 list):
+                                                 (list, tuple)):
       # Make sure the vocabulary list exists. If not, assume user has already
       # properly set monotonicity as proper indices for this calibrator.
       if not feature_config.vocabulary_list:
